@@ -27,6 +27,13 @@ KERNELS = {
 }
 
 
+import sys as _sys
+_sys.path.insert(0, os.path.dirname(os.path.abspath(__file__)))
+import py2coq_imp, kernels_imp
+for _name, _g in kernels_imp.GROUPS.items():
+    KERNELS[_name] = {"gen": _g["gen"], "eq": _g["eq"], "functions": _g["functions"], "imp": _g}
+
+
 class Refuse(Exception):
     pass
 
@@ -190,6 +197,8 @@ class Tr:
 
 def translate(group, repo):
     k = KERNELS[group]
+    if "imp" in k:
+        return py2coq_imp.translate_group(repo, k["imp"])
     out = ["(* GENERATED by translator/py2coq.py from the current source of %s -- do not edit; not committed. *)" % repo,
            "From Coq Require Import ZArith Bool.", "Open Scope Z_scope.", ""]
     for src_entry in k["sources"]:
